@@ -1879,8 +1879,10 @@ class Engine:
             if ty is None:
                 return None, desc
             la, lb = ctx.L(a), ctx.L(b)
-            if kind.startswith("Add") and UMAX[ty] >= 2 ** 64 - 1 and ((lb.is_const() and 0 <= lb.c <= 1) or (la.is_const() and 0 <= la.c <= 1)):
-                # a 64-bit counter stepped by one cannot wrap: 2^64 steps are not executable
+            other = a if (lb.is_const() and 0 <= lb.c <= 1) else (b if (la.is_const() and 0 <= la.c <= 1) else None)
+            if kind.startswith("Add") and UMAX[ty] >= 2 ** 64 - 1 and other is not None and self._is_counter(other):
+                # a 64-bit in-memory counter stepped by one cannot wrap: 2^64 steps are not executable. (A value decoded from
+                # the device is NOT a counter: it may already be u64::MAX.)
                 return [], desc + " [64-bit unit step]"
             if kind.startswith("Add"):
                 return [const(UMAX[ty]) - la - lb], desc
@@ -1893,6 +1895,16 @@ class Engine:
                     return [const(UMAX[ty]) - la.scale(lb.c)], desc
                 return ("mul", la, lb, UMAX[ty]), desc
         return None, "overflow: " + cond.show()[:60]
+
+    def _is_counter(self, e):
+        """a loop variable or an in-memory field, with nothing decoded from bytes in it"""
+        while e.k == "cast" and e.a:
+            e = e.a[0]
+        if e.k == "phi":
+            return True
+        if e.k == "field" and not any(x.k == "call" for x in e.walk()):
+            return True
+        return False
 
     # ---- proving
     def prove(self, ctx, ob):
